@@ -3,12 +3,15 @@ EXTENDS ImportCamt, Json
 CONSTANT MaxEntries
 VARIABLES opening, entries, order
 
-Det(a, c) == [amt |-> a, charge |-> c, rev |-> FALSE]
-Rev(a) == [amt |-> a, charge |-> DZero, rev |-> TRUE]
+Det(a, c) == [amt |-> a, charge |-> c, rev |-> FALSE, figures |-> TRUE]
+DetBare(a, c) == [amt |-> a, charge |-> c, rev |-> FALSE, figures |-> FALSE]     \* no amount before charges shown
+Rev(a) == [amt |-> a, charge |-> DZero, rev |-> TRUE, figures |-> TRUE]
 \* an entry amount and the ways it is batched (details sum to the entry; a charge is included in its detail)
-Shapes == {
+Shapes0 == {
   [amt |-> D(100, 2), details |-> <<>>],
   [amt |-> D(1050, 2), details |-> <<>>],
+  [amt |-> D(1050, 2), details |-> <<DetBare(D(1050, 2), D(50, 2))>>],
+  [amt |-> D(2050, 2), details |-> <<DetBare(D(1050, 2), D(50, 2)), Det(D(1000, 2), DZero)>>],
   [amt |-> D(200, 2), details |-> <<Det(D(100, 2), DZero), Det(D(100, 2), DZero)>>],
   [amt |-> D(1050, 2), details |-> <<Det(D(1000, 2), DZero), Det(D(50, 2), DZero)>>],
   [amt |-> D(1050, 2), details |-> <<Det(D(1050, 2), D(50, 2))>>],
@@ -18,9 +21,13 @@ Shapes == {
   \* a charge credited back by the bank (charge record with CRDT): the other party got amount + charge
   [amt |-> D(1050, 2), details |-> <<Det(D(1050, 2), D(-50, 2))>>]
 }
-Entries == {[cd |-> cd, amt |-> s.amt, vday |-> v, bday |-> b, details |-> s.details] :
+\* entries without details that carry their own included charge: a payment with a fee, and a pure fee
+Shapes == {[amt |-> s.amt, details |-> s.details, charge |-> DZero] : s \in Shapes0}
+          \cup {[amt |-> D(1050, 2), details |-> <<>>, charge |-> D(50, 2)], [amt |-> D(500, 2), details |-> <<>>, charge |-> D(500, 2)]}
+Entries == {[cd |-> cd, amt |-> s.amt, vday |-> v, bday |-> b, details |-> s.details, charge |-> s.charge] :
               cd \in {"CRDT", "DBIT"}, s \in Shapes, v \in {2, 3}, b \in {3}}
-Usable(e) == \A j \in 1..Len(e.details) : (e.details[j].charge # DZero => e.cd = "DBIT")
+Usable(e) == /\ \A j \in 1..Len(e.details) : (e.details[j].charge # DZero => e.cd = "DBIT")
+             /\ (e.charge # DZero => e.cd = "DBIT")
 
 MCInit == /\ opening \in {DZero, D(100000, 2), D(-5000, 2)}
           /\ order \in {"old_to_new", "new_to_old"}
